@@ -188,6 +188,13 @@ void raise_sigchld(int forking_thread) {
 }
 void child_zombie(Child& c) {
   c.state = 3;
+  if (handlers[SIGCHLD].sa_handler == SIG_IGN || (handlers[SIGCHLD].sa_flags & SA_NOCLDWAIT)) {
+    // POSIX: while SIGCHLD is ignored, terminated children are not turned into zombies: nothing is left for waitpid, which fails with ECHILD
+    c.state = 4; c.reusable = true;
+    if (c.out_fd >= 0) { __real_close(c.out_fd); c.out_fd = -1; }
+    vsim::count("child_discarded_while_sigchld_ignored"); vsim::event(100, c.pid, -1);
+    return;
+  }
   if (c.fate.kind == 0) c.status = (c.fate.value & 0xff) << 8; else if (c.fate.kind == 1) c.status = c.fate.value & 0x7f; else c.status = (1 << 8);
   if (c.out_fd >= 0) { __real_close(c.out_fd); c.out_fd = -1; }
   vsim::count("child_exit");
@@ -501,7 +508,10 @@ void begin(const Config& c) {
   for (auto& kv : children) if (kv.second.out_fd >= 0) __real_close(kv.second.out_fd);
   alloc_calls = 0;
   pipes.clear(); fds.clear(); children.clear(); next_fd = 10000; next_pipe = 1; next_pid = 5000; sig_pending_proc = false;
+  // every run is a new process: default dispositions, or SIGCHLD ignored when the simulated process was started that way (a disposition
+  // that is inherited through exec: daemons, schedulers and CI runners start their jobs like this)
   memset(handlers, 0, sizeof handlers);
+  if (cfg.sigchld_ignored) handlers[SIGCHLD].sa_handler = SIG_IGN;
 #endif
   static bool main_sem_init = false; if (!main_sem_init) { sem_init(&main_sem, 0, 0); main_sem_init = true; }
   Th* t = new Th{}; t->id = 0; t->prio = 1 << 20; t->ign = 1; vc_tick(t);
